@@ -233,8 +233,8 @@ func expectJoin(s *Scenario, withMeta bool, j Join) (exp []expTag, zeroBase bool
 
 type caseStats struct {
 	key, ptsNeDts, ptsBack, big, tiny, boundary, older, first32, ext24 bool
-	views                                                   int
-	gopJoin, midJoin                                        bool
+	views                                                              int
+	gopJoin, midJoin                                                   bool
 }
 
 func (s *Scenario) staticStats() caseStats {
@@ -383,6 +383,7 @@ func record(s *Scenario, cs caseStats) {
 	evid.Eval(1)
 	evid.Class("layer:" + s.Layer + "/" + s.Codec + fmt.Sprintf("/audio=%v", s.Audio))
 	evid.Class("base:" + s.Base)
+	evid.Class(fmt.Sprintf("param-sets:synthetic=%v", s.Synth != nil))
 	evid.ClassN("client-views", int64(cs.views))
 	for name, on := range map[string]bool{
 		"has-key-frame": cs.key, "pts!=dts": cs.ptsNeDts, "pts<dts": cs.ptsBack, "nal>64KiB": cs.big, "nal-minimal-size": cs.tiny,
@@ -452,7 +453,7 @@ func propLayer(layer, codecName string, audio bool) func(t *rapid.T) {
 func TestPacketizers(t *testing.T) {
 	evid.Rule(ruleText)
 	evid.Assume("AAC frames carry PTS = DTS (aac_depacketizer.go always sets both to the same value); DTS >= 0; consecutive tags of one client are less than 2^31 ms apart")
-	evid.Checks(1500, 40000)
+	evid.Checks(4000, 40000)
 	for _, c := range []struct {
 		codec string
 		audio bool
@@ -467,7 +468,7 @@ func TestPacketizers(t *testing.T) {
 
 func TestMuxerJoin(t *testing.T) {
 	evid.Rule(ruleText)
-	evid.Checks(1500, 40000)
+	evid.Checks(3000, 30000)
 	for _, c := range []struct {
 		codec string
 		audio bool
